@@ -191,7 +191,11 @@ def _solver_stage(case, env, exprs, es, pv_cur, classes):
         classes.append("solver-stage:undefined-at-x0")
         return None
     except Exception as ex:
-        return Result.violation(f"solver-stage-raises:{exc_label(ex)}", f"{[show(r) for r in exprs]}: {ex!r}", classes)
+        from harness.common import defined_at_origin
+        if defined_at_origin(env, exprs, pv_cur):
+            return Result.violation(f"solver-stage-raises:{exc_label(ex)}", f"{[show(r) for r in exprs]}: {ex!r}", classes)
+        classes.append("solver-stage:undefined-at-x0")  # the model itself is undefined at the start point
+        return None
     if not cap.calls or cap.calls[0].get("jac") is None:
         return None
     call = cap.calls[0]
